@@ -1,4 +1,4 @@
-import Proofs.Lemmas.HeapCheck
+import Proofs.Lemmas.HeapSucc
 /-
 C11 — Copies and sibling instances share no mutable state.
 
@@ -427,5 +427,199 @@ example : (match copyRoot [exCls] exUncFixed exA.2 with
       | some (_, c2) => decide (c1 ≠ c2)
       | none => false)
     | none => false) = true := by decide
+
+/-! ## Internal sharing structure
+
+Observational equality includes the *internal* sharing structure: which `__dict__` entries lead to the same object.
+A fresh model / linker has `endogenous` and `check` as two different new lists (also when `CHECK is ENDOGENOUS` at
+class level).  Since /repo commit 5ca5eb2 `VectorContainer.copy` deep-copies the whole `__dict__` with ONE memo: the
+copy is a graph isomorphism (`MemoIso`: the memo is an injective function from old to new objects, every new object's
+entries are the images of the old one's), so two entries of the copy share an object **iff** the corresponding
+entries of the original do — the copy's entry-aliasing partition equals the original's.  (Before the fix every
+entry was copied by a call of its own and an object stored under two attributes was duplicated: finding
+`copy-cuts-internal-alias`, fixed.)  `BaseLinker.copy` still copies entry by entry; for linkers the statement is
+that the copy's entries are separate. -/
+
+/-- **fresh_check_is_not_endogenous.** -/
+theorem fresh_check_is_not_endogenous (ci : Nat) (cd : ClassDesc) (h : Heap) (span sub : Val)
+    (hc : cd.base ≠ .container) :
+    ∃ L, (construct cd h span sub).2.lookup "endogenous" = some (.ref L) ∧
+         (construct cd h span sub).2.lookup "check" = some (.ref (L + 1)) :=
+  construct_check_ne_endogenous cd h span sub hc
+
+/-- **copy_entry_aliasing_preserved** (containers and models).  For every two entries of the original and the
+    entries of the copy under the same keys: the copy's entries reach a common object iff the original's do.
+    Hypotheses beyond `WorldOK2`: the heap is acyclic, and no *instance* is reachable from the entries (a nested
+    instance is copied by its own `copy()`, i.e. with a memo of its own). -/
+theorem copy_entry_aliasing_preserved {cs : List ClassDesc} {h h1 : Heap} {a c : Nat} {o : Obj} {ci : Nat}
+    {cd : ClassDesc} (W : WorldOK2 cs h) (ac : AcyclicH h) (ho : h[a]? = some o) (hk : o.kind = .inst ci)
+    (hcd : cs[ci]? = some cd) (hnl : cd.base ≠ .linker) (plain : ∀ k v, (k, v) ∈ o.slots → PlainV h v)
+    (hc : copyRoot cs h a = some (h1, c)) :
+    ∃ o', h1[c]? = some o' ∧ ∀ k1 k2 v1 v2 w1 w2, o.slots.lookup k1 = some v1 → o.slots.lookup k2 = some v2 →
+      o'.slots.lookup k1 = some w1 → o'.slots.lookup k2 = some w2 → (SharedV h1 w1 w2 ↔ SharedV h v1 v2) :=
+  copyRoot_aliasing_preserved W ac ho hk hcd hnl plain hc
+
+/-- **copy_entries_separate_linker.**  In the copy of a linker no object is reachable from two different
+    `__dict__` entries (the new `submodels` dict with the copied submodels, and every other entry, live in blocks
+    of their own). -/
+theorem copy_entries_separate_linker {cs : List ClassDesc} {h h1 : Heap} {a c : Nat} {o : Obj} {ci : Nat}
+    {cd : ClassDesc} (W : WorldOK2 cs h) (ho : h[a]? = some o) (hk : o.kind = .inst ci) (hcd : cs[ci]? = some cd)
+    (hl : cd.base = .linker) (hc : copyRoot cs h a = some (h1, c)) : EntriesSeparate h1 c :=
+  copyRoot_entries_separate_linker W ho hk hcd hl hc
+
+/-! ## `copy()` succeeds
+
+Every copy theorem above is conditional on `copyRoot … = some …`.  It does succeed: if every reference goes to an
+object of smaller rank (`Ranked`; hence the heap is acyclic), nothing reachable from the root is uncopyable and
+every reachable instance has a class (a linker also its `submodels` dict) (`Copyable`), and the rank of the root is
+at most the number of objects of the heap — the driver's fuel is `h.length + 1` — then `copyRoot` returns a copy. -/
+
+/-- **copy_succeeds.** -/
+theorem copy_succeeds {cs : List ClassDesc} {h : Heap} (W : WorldOK cs h) {rk : Nat → Nat} (R : Ranked h rk)
+    {a : Nat} (ha : a < h.length) (hr : rk a ≤ h.length) (C : Copyable cs h a) :
+    ∃ h1 c, copyRoot cs h a = some (h1, c) :=
+  copyRoot_succeeds W R ha hr C
+
+/-- A ranked heap is acyclic (the hypothesis of `copy_entry_aliasing_preserved`). -/
+theorem ranked_acyclic {h : Heap} {rk : Nat → Nat} (R : Ranked h rk) : AcyclicH h := acyclic_of_ranked R
+
+/-- Executable form of `EntriesSeparate` (for the examples and the driver). -/
+def entryAliases (h : Heap) (a : Nat) : List (String × String) :=
+  match h[a]? with
+  | none => []
+  | some o =>
+    o.slots.flatMap fun p => o.slots.filterMap fun q =>
+      if p.1 < q.1 ∧ ((paths h 8 "" p.2).map (·.2)).any (fun x => ((paths h 8 "" q.2).map (·.2)).contains x)
+      then some (p.1, q.1) else none
+
+-- a fresh instance and its copy: no entry-level aliases
+set_option maxRecDepth 8000 in
+example : entryAliases exB.1 exA.2 = [] := by decide
+set_option maxRecDepth 8000 in
+example : (match copyRoot [exCls] exH exA.2 with
+    | some (h1, c) => decide (entryAliases h1 c = [])
+    | none => false) = true := by decide
+-- the user stores one list under `p` and `q`: the copy keeps exactly that alias (one memo)
+def exAliased : Heap :=
+  run (applyOp exB.1 exA.2 (.addAttrList "p" ["u"])) exA.2
+    [⟨[], .bindNew "q" .tuple [("0", .alias ["p"])]⟩]
+set_option maxRecDepth 8000 in
+example : entryAliases exAliased exA.2 = [("p", "q")] ∧
+    (match copyRoot [exCls] exAliased exA.2 with
+      | some (h1, c) => decide (entryAliases h1 c = [("p", "q")])
+      | none => false) = true := by decide
+
+/-! ## Non-vacuity (review): every hypothesis of the theorems above, instantiated at the example world
+
+`exH` = two sibling instances `a` (location 22) and `b` (42) of the tracer model class, after the history `exHist`
+through `a`; `exC1` / `exC2` are two successive copies of `a`. -/
+
+theorem exW2 : WorldOK2 [exCls] exH := worldOK2_of_check (by decide)
+theorem exWF : WF exHeap := wf_of_check (by decide)
+theorem exOK : ClassOK exHeap exCls := classOK_of_check (by decide)
+
+def exC1 : Heap × Nat := (copyRoot [exCls] exH exA.2).getD ([], 0)
+def exC2 : Heap × Nat := (copyRoot [exCls] exC1.1 exA.2).getD ([], 0)
+set_option maxRecDepth 8000 in
+theorem exC1_eq : copyRoot [exCls] exH exA.2 = some (exC1.1, exC1.2) := by decide
+set_option maxRecDepth 16000 in
+theorem exC2_eq : copyRoot [exCls] exC1.1 exA.2 = some (exC2.1, exC2.2) := by decide
+
+-- copy_fresh, copy_observationally_equal, copy_same_class, worldOK_after_copy: W, ha, hc
+example : Disjoint exC1.1 exA.2 exC1.2 ∧ ObsEq exC1.1 exA.2 exC1.2 ∧ WorldOK [exCls] exC1.1 :=
+  ⟨(copy_fresh exW2.toWorldOK (by decide) exC1_eq).1, copy_observationally_equal exW2 (by decide) exC1_eq,
+   worldOK_after_copy exW2.toWorldOK (by decide) exC1_eq⟩
+example : ∃ o o', exC1.1[exA.2]? = some o ∧ exC1.1[exC1.2]? = some o' ∧ o.kind = o'.kind :=
+  copy_same_class exW2 (by decide) exC1_eq
+-- copy_independent (history `exHist` through the copy), copy_resync_independent (a write to the original, then the
+-- copy re-reads `Y` from the original's array at location 8)
+example : ∀ n, view (run exC1.1 exC1.2 exHist) n (.ref exA.2) = view exC1.1 n (.ref exA.2) :=
+  (copy_independent exW2.toWorldOK (by decide) exC1_eq exHist).1
+example : Disjoint (runBothOps exC1.1 exA.2 exC1.2
+    [(true, .setCell "Y" 0 (.int 7)), (false, .assignFrom "Y" 8 true), (false, .append ["check"] "X")]) exA.2 exC1.2 :=
+  (copy_resync_independent exW2.toWorldOK (by decide) exC1_eq _).1
+-- successive_copies_disjoint: W, ha, hc1, hc2
+example : exC1.2 ≠ exC2.2 ∧ Disjoint exC2.1 exC1.2 exC2.2 ∧ Disjoint exC2.1 exA.2 exC1.2 ∧ Disjoint exC2.1 exA.2 exC2.2 :=
+  successive_copies_disjoint exW2.toWorldOK (by decide) exC1_eq exC2_eq
+-- copy_succeeds: W, Ranked (rank = depth of the structure), root valid, rank of the root ≤ heap size, Copyable
+theorem exRanked : Ranked exH (depth exH exH.length) := ranked_of_check (by decide)
+example : ∃ h1 c, copyRoot [exCls] exH exA.2 = some (h1, c) :=
+  copy_succeeds exW2.toWorldOK exRanked (by decide) (by decide) (copyable_of_check (by decide) _)
+-- copy_entry_aliasing_preserved: on the world where the user stored one list under `p` and inside the tuple `q`
+theorem exWA : WorldOK2 [exCls] exAliased := worldOK2_of_check (by decide)
+def exCA : Heap × Nat := (copyRoot [exCls] exAliased exA.2).getD ([], 0)
+set_option maxRecDepth 8000 in
+theorem exCA_eq : copyRoot [exCls] exAliased exA.2 = some (exCA.1, exCA.2) := by decide
+example : ∃ o', exCA.1[exCA.2]? = some o' ∧ ∀ k1 k2 v1 v2 w1 w2, (exAliased[exA.2]).slots.lookup k1 = some v1 →
+    (exAliased[exA.2]).slots.lookup k2 = some v2 → o'.slots.lookup k1 = some w1 → o'.slots.lookup k2 = some w2 →
+    (SharedV exCA.1 w1 w2 ↔ SharedV exAliased v1 v2) :=
+  copy_entry_aliasing_preserved (o := exAliased[exA.2]) (ci := 0) (cd := exCls) exWA
+    (ranked_acyclic (rk := depth exAliased exAliased.length) (ranked_of_check (by decide)))
+    (by decide) (by decide) (by decide) (by decide) (plainEntries_of_check (by decide)) exCA_eq
+-- copy_entries_separate_linker: two linkers built with default arguments; a copy of the first
+theorem exWL : WorldOK2 [exCls, exLCls] exL2.1 := worldOK2_of_check (by decide)
+def exCL : Heap × Nat := (copyRoot [exCls, exLCls] exL2.1 exL1.2).getD ([], 0)
+set_option maxRecDepth 8000 in
+theorem exCL_eq : copyRoot [exCls, exLCls] exL2.1 exL1.2 = some (exCL.1, exCL.2) := by decide
+example : EntriesSeparate exCL.1 exCL.2 :=
+  copy_entries_separate_linker (o := exL2.1[exL1.2]) (ci := 1) (cd := exLCls) exWL (by decide) (by decide) (by decide)
+    (by decide) exCL_eq
+
+-- siblings: disjoint_frame / disjoint_frame_ops / interleaved_* need WF, both roots valid and `Disjoint`, which is what
+-- `siblings_disjoint` gives for `a` and `b` (its own hypotheses: `exWF`, `exOK`)
+theorem exSibDisj : Disjoint exB.1 exA.2 exB.2 :=
+  siblings_disjoint 0 exCls exHeap (.range 2) (.range 2) .none .none exWF exOK
+theorem exWFB : WF exB.1 := wf_of_check (by decide)
+example : ∀ n, view exH n (.ref exB.2) = view exB.1 n (.ref exB.2) :=
+  (disjoint_frame exWFB (by decide) (by decide) exSibDisj exHist).2.2.1
+example : ∀ n, view (runOps exB.1 exA.2 [.append ["check"] "X", .setCell "Y" 1 (.int 3)]) n (.ref exB.2) =
+    view exB.1 n (.ref exB.2) :=
+  (disjoint_frame_ops exWFB (by decide) (by decide) exSibDisj _).1
+example : Disjoint exSync exA.2 exB.2 :=
+  (interleaved_independent_ops exWFB (by decide) (by decide) exSibDisj _).1
+example : Disjoint (runBoth exB.1 exA.2 exB.2 (exHist.map fun s => (true, s))) exA.2 exB.2 :=
+  (interleaved_disjoint _ exB.1 exWFB (by decide) (by decide) exSibDisj).2.2
+example : view (applyStep (runBoth exB.1 exA.2 exB.2 (exHist.map fun s => (true, s))) exA.2
+      ⟨["check"], .push (.str "X")⟩) 3 (.ref exB.2) =
+    view (runBoth exB.1 exA.2 exB.2 (exHist.map fun s => (true, s))) 3 (.ref exB.2) :=
+  (interleaved_independent exWFB (by decide) (by decide) exSibDisj _ _ 3).1
+example : Disjoint exB.1 exB.2 exCls.attrs := instance_class_disjoint 0 exCls exA.1 (.range 2) .none
+  (wf_of_check (by decide)) (classOK_of_check (by decide))
+
+-- assignFrom_inplace_copies_values: hn, ho, hs (b's `_Y` is location 28, a's `_Y` is location 8)
+example : nav exB.1 exB.2 ["_" ++ "Y"] = some 28 ∧ exB.1[28]? = some (cellArray 2 (.int 0)) ∧
+    exB.1[8]? = some (cellArray 2 (.int 0)) := by decide
+example : (applyOp exB.1 exB.2 (.assignFrom "Y" 8 true))[28]? = some ⟨.array, immSlots (cellArray 2 (.int 0)).slots⟩ :=
+  assignFrom_inplace_copies_values (o := cellArray 2 (.int 0)) (by decide) (by decide) (by decide)
+
+-- ops_local at a real history: the new `_Q` array (location 47) is reachable from `a` after `exHist`, and is new
+example : Reach exB.1 exA.2 47 ∨ exB.1.length ≤ 47 :=
+  ops_local (ops := [.traceT 1 .own true (.str "start") 3, .addVariable "Q" 2 true]) exWFB (by decide) 47
+    (Reach.step (Reach.refl _) (o := exH[exA.2]) (k := "_Q") (by decide) (by decide))
+
+-- trace_t_local: wf, hr, hl and `¬ Reach` (the class-level TRACE_VARIABLES list, location 2, is reachable from the
+-- class object 3, hence not from the instance)
+theorem exNoReach2 : ¬ Reach exA2.1 exA2.2 2 := fun r =>
+  instance_class_disjoint 0 exCls2 exHeap2 (.range 2) .none (wf_of_check (by decide)) (classOK_of_check (by decide)) 2 r
+    (Reach.step (Reach.refl 3) (o := exHeap2[3]) (k := "TRACE_VARIABLES") (by decide) (by decide))
+example : ¬ Reach exT2 exA2.2 2 :=
+  trace_t_local (wf_of_check (by decide)) (by decide) (by decide) 1 true (.str "start") 1 exNoReach2
+
+-- deepcopy_uncopyable: ho, hk, hm (the generator attribute of `exUnc` is location 43)
+example : deepcopy [exCls] 5 exUnc [] (.ref 43) = none :=
+  deepcopy_uncopyable (o := ⟨.uncopyable, []⟩) 5 (by decide) rfl rfl
+-- failed_copy_is_identity: hf
+set_option maxRecDepth 8000 in
+example : (copyCmd [exCls] exUnc exA.2).1 = exUnc := failed_copy_is_identity (by decide)
+-- fresh_check_is_not_endogenous: hc
+example : ∃ L, (construct exCls exHeap (.imm (.range 2)) (.imm .none)).2.lookup "endogenous" = some (.ref L) ∧
+    (construct exCls exHeap (.imm (.range 2)) (.imm .none)).2.lookup "check" = some (.ref (L + 1)) :=
+  fresh_check_is_not_endogenous 0 exCls exHeap _ _ (by decide)
+-- sibling_history_invisible / class_invisible_to_instance_history: wf, ok
+example : ∀ n, view (runOps exB.1 exA.2 [.append ["check"] "X"]) n (.ref exB.2) = view exB.1 n (.ref exB.2) :=
+  sibling_history_invisible 0 exCls exHeap (.range 2) (.range 2) .none .none exWF exOK _
+example : ∀ n, view (runOps exA.1 exA.2 [.append ["check"] "X"]) n (.ref exCls.attrs) =
+    view exA.1 n (.ref exCls.attrs) :=
+  class_invisible_to_instance_history 0 exCls exHeap (.range 2) .none exWF exOK _
 
 end Fsic.C11
